@@ -25,10 +25,22 @@ type Bearer struct {
 	SignAs    string                 `json:"sign_as,omitempty"`    // really sign with this HMAC ("" = the alg named)
 	Secret    string                 `json:"secret,omitempty"`     // right | wrong | empty
 	Trunc     int                    `json:"trunc,omitempty"`      // characters cut from the end of the signature
+	SignKey   *string                `json:"sign_key,omitempty"`   // sign with exactly this key instead (configuration dimension of the secret)
+	KeyExact  bool                   `json:"key_exact,omitempty"`  // ... which is, as a string, the configured secret
 	Claims    map[string]interface{} `json:"claims,omitempty"`     // the JSON claims object
 	HeaderSeg string                 `json:"header_seg,omitempty"` // override of segment 1: notb64 | notjson | array
 	ClaimsSeg string                 `json:"claims_seg,omitempty"` // override of segment 2: notb64 | notjson | array
 	Label     string                 `json:"label,omitempty"`      // which mutation produced it (for the distribution)
+}
+
+func secretVariant(secret, which string) string {
+	switch which {
+	case "wrong":
+		return secret + "x"
+	case "empty":
+		return ""
+	}
+	return secret
 }
 
 // Secrets of one environment.
@@ -81,11 +93,10 @@ func (b Bearer) Build(secret string) (string, bool) {
 	}
 	signing := seg1 + "." + seg2
 	key := secret
-	switch b.Secret {
-	case "wrong":
-		key = secret + "x"
-	case "empty":
-		key = ""
+	if b.SignKey != nil {
+		key = *b.SignKey
+	} else {
+		key = secretVariant(secret, b.Secret)
 	}
 	sig := ""
 	algName, _ := b.Alg.(string)
@@ -258,6 +269,9 @@ func (b Bearer) Classify() MBearer {
 		mb.Alg = "AlgUnknown"
 	}
 	mb.SigOK = hmacFor(algName) != nil && b.SignAs == "" && (b.Secret == "right" || b.Secret == "") && b.Trunc == 0
+	if b.SignKey != nil {
+		mb.SigOK = hmacFor(algName) != nil && b.SignAs == "" && b.KeyExact && b.Trunc == 0
+	}
 	return mb
 }
 
